@@ -415,8 +415,15 @@ def apply_summary(path, mutations):
                 elif which == 2 and fs.has_mcsum and img.inuse: i = img.inuse[val % len(img.inuse)]; o = img.ino_off(i) + 0x7c; n = 2; what = 'inode[%d].csum_lo' % i
                 elif which == 3 and fs.has_mcsum and img.dir_blocks:
                     blk, ino, lb, kd = img.dir_blocks[val % len(img.dir_blocks)]
-                    if kd != 'leaf': continue
-                    o = blk * bs + bs - 4; n = 4; what = 'dir %d blk %d tail csum' % (ino, blk)
+                    if kd == 'leaf':
+                        o = blk * bs + bs - 4; n = 4; what = 'dir %d blk %d tail csum' % (ino, blk)
+                    else:
+                        # htree root / interior node: struct dx_tail {reserved, checksum} follows the `limit` index entries
+                        b = img.rd(blk * bs, bs)
+                        co = 8 if kd == 'dxnode' else 0x18 + b[0x1d]
+                        limit = struct.unpack_from('<H', b, co)[0]; to = co + limit * 8
+                        if to + 8 > bs: continue
+                        o = blk * bs + to + 4; n = 4; what = 'dir %d blk %d %s dx-tail csum' % (ino, blk, kd)
                 elif which == 4 and fs.has_mcsum: o = img.gd_off(g) + 0x18; n = 2; what = 'gd[%d].bb_csum' % g
                 elif which == 5 and fs.has_mcsum and img.tree_blocks:
                     blk, ino = img.tree_blocks[val % len(img.tree_blocks)]; b = img.rd(blk * bs, 12); mx = struct.unpack_from('<H', b, 4)[0]; o = blk * bs + 12 + 12 * mx; n = 4; what = 'extent blk %d csum' % blk
